@@ -36,6 +36,29 @@ type UpperTriangular struct {
 
 /* -------------------------------------------------------------------------- */
 
+// Permute/PermuteRows apply a permutation as a sequence of interchanges: for
+// ascending i, position i is swapped with position q[i] whenever q[i] > i.
+// Convert the gather permutation p (element i of the result is stored at
+// position p[i]) into the interchange sequence q that realises it.
+func interchangeSequence(p []int) []int {
+  n := len(p)
+  pos := make([]int, n) // pos[r]: current position of the element initially at r
+  elm := make([]int, n) // elm[k]: initial position of the element currently at k
+  for i := 0; i < n; i++ {
+    pos[i] = i
+    elm[i] = i
+  }
+  q := make([]int, n)
+  for i := 0; i < n; i++ {
+    j := pos[p[i]]
+    q[i] = j
+    ei, ej := elm[i], elm[j]
+    elm[i], elm[j] = ej, ei
+    pos[ei], pos[ej] = j, i
+  }
+  return q
+}
+
 func gaussJordan(a, x Matrix, b Vector, submatrix []bool) error {
   t := NewScalar(a.ElementType(), 0.0)
   c := NewScalar(a.ElementType(), 0.0)
@@ -158,6 +181,8 @@ func gaussJordan(a, x Matrix, b Vector, submatrix []bool) error {
     // normalize ith element in b
     b.At(p[i]).Div(b.At(p[i]), c)
   }
+  // row i of the result is stored in row p[i]
+  p = interchangeSequence(p)
   if err := a.PermuteRows(p); err != nil {
     return err
   }
